@@ -4,6 +4,7 @@ import (
 	"encoding/json"
 	"fmt"
 	"strconv"
+	"strings"
 )
 
 func init() {
@@ -365,6 +366,46 @@ func genC17(tier, out string, sum *Summary) {
 			}
 		}
 	}
+	// the identities hold for every Go value the data may contain: what is not JSON data is opaque on both sides
+	opaqueFamily(sum, "identity opaque")
+	for _, v := range opaqueValues() {
+		for _, doc := range []any{map[string]any{"rows": v, "x": v}, v, []any{v, v}} {
+			for _, pr := range [][2]string{{"rows[*].id", "rows[*] | [*].id"}, {"(rows[*]) | [*].tags[*]", "rows[*].tags[*]"}, {"[*].rows", "[*] | [*].rows"}, {"rows[].id", "rows[] | [*].id"}, {"rows[?id].id", "rows[?id] | [*].id"},
+				{"rows[0:2].id", "rows[0:2] | [*].id"}, {"rows.*.id", "rows.* | [*].id"}, {"rows.id", "rows | id"}, {"[rows, x]", "[rows] | [@[0], $.x]"}, {"{k: rows}.k", "rows"}, {"[*].id", "@[*] | [*].id"}, {"[0].id", "[0] | id"}, {"*.id", "* | [*].id"}, {"[?id]", "[?id] | [*]"}} {
+				ol, or_ := search(pr[0], doc), search(pr[1], doc)
+				c.sum.count("typed-data-identities")
+				if !sameObs(ol, or_, true) && !(ol.Kind == "val" && or_.Kind == "val" && !modelled(ol.Value) && !modelled(or_.Value)) && !(ol.Kind == "err" && or_.Kind == "err") {
+					c.sum.direct("identity typed-data", pr[0], fmt.Sprintf("%#v", doc), fmt.Sprintf("%q gives %s but %q gives %s", pr[0], describe(ol), pr[1], describe(or_)))
+				}
+			}
+		}
+	}
+	// "!" is a left-hand side like any other: a.b = a | b for a = !x, -x, a literal, a call, a multi-select
+	for _, a := range []string{"!x", "!o", "!!x", "- n", "+ n", "`{\"b\": 1}`", "not_null(o)", "[o][0]", "{b: n}", "(o)", "!x || o", "o && !x"} {
+		for _, b := range []string{"b", "*", "[b, c]", "{k: b}", "b.c", "[b][0]"} {
+			for _, d := range []string{`{"x": {"b": 1}, "o": {"b": {"c": 2}, "c": 3}, "n": 1}`, `{"x": null, "o": {"b": false}, "n": -1}`, `{"x": false, "o": null, "n": 0}`} {
+				doc := jsonDoc(d)
+				l, r := a+"."+b, a+" | "+b
+				if strings.Contains(a, "||") || strings.Contains(a, "&&") || a[0] == '-' || a[0] == '+' {
+					l, r = "("+a+")."+b, "("+a+") | "+b
+				}
+				ol, or_ := search(l, doc), search(r, doc)
+				c.sum.count("spelled-identities")
+				// a multi-select after a dot answers null for a null left-hand side; after a pipe it is evaluated on null
+				nullLeft := false
+				if oa := search("("+a+")", doc); oa.Kind == "val" && oa.Value == nil && (b[0] == '[' || b[0] == '{') {
+					nullLeft = true
+				}
+				if !nullLeft && !sameObs(ol, or_, true) && !(ol.Kind == "err" && or_.Kind == "err") {
+					c.sum.direct("identity spelled", l, doc, fmt.Sprintf("%q gives %s but %q gives %s", l, describe(ol), r, describe(or_)))
+				}
+				// parenthesising the complete left-hand side changes nothing
+				if op := search("("+a+")."+b, doc); !sameObs(ol, op, true) && !(ol.Kind == "err" && op.Kind == "err") {
+					c.sum.direct("identity spelled", l, doc, fmt.Sprintf("%q gives %s but %q gives %s", l, describe(ol), "("+a+")."+b, describe(op)))
+				}
+			}
+		}
+	}
 	// ".[*]" (a one-element multi-select of "*") directly after a projection: the same as piping into a new projection
 	for _, pr := range [][2]string{{"x[*].[*]", "x[*] | [*].[*]"}, {"x[].[*]", "x[] | [*].[*]"}, {"x[0:3].[*]", "x[0:3] | [*].[*]"}, {"x[?@ || !@].[*]", "x[?@ || !@] | [*].[*]"}, {"o.*.[*]", "o.* | [*].[*]"}, {"x[*].[*]", "x[*].[@.*]"},
 		{"x[*].[ *]", "x[*].[*]"}, {"x[*].[*][0]", "x[*] | [*].[*][0]"}, {"[*].[*]", "@[*] | [*].[*]"}, {"x[*].[*].[*]", "x[*] | [*].[*] | [*].[*]"}} {
@@ -408,6 +449,20 @@ func c19Direct(sum *Summary) {
 		{"[let $x = `1` in $x, $x]", "!undef"},
 		{"(let $x = `1` in $x) | $x", "!undef"},
 		{"a[*].[let $e = b in $e] | [$e]", "!undef"},
+	}
+	// the only variables are those a let binds: no construct defines a name of its own (an element, an index, a
+	// key, the root, an accumulator), and a user's binding of any name is what a reference to it sees everywhere
+	for _, name := range []string{"$index", "$i", "$item", "$value", "$key", "$this", "$root", "$current", "$it", "$acc", "$element", "$_", "$0", "$idx", "$k", "$v", "$self", "$parent", "$length", "$count", "$e", "$x"} {
+		if name == "$0" {
+			continue // not a variable name
+		}
+		for _, form := range []string{"map(&%s, a)", "map(&[%s, b], a)", "sort_by(a, &%s)", "max_by(a, &%s)", "min_by(a, &%s)", "group_by(a, &%s)", "a[*].[%s]", "a[?%s]", "a[].[%s]", "a[0:1].[%s]", "*.[%s]", "[%s]", "{k: %s}", "a | %s", "a[*].c[?%s]", "map(&(let $q = @ in %s), a)", "not_null(%s)"} {
+			e := fmt.Sprintf(form, name)
+			cases = append(cases, tc{e, "!undef"})
+		}
+		user := "let " + name + " = 'mine' in "
+		cases = append(cases, tc{user + "map(&" + name + ", a)", `["mine","mine"]`}, tc{user + "map(&[" + name + ", b], a)", `[["mine",1],["mine",2]]`}, tc{user + "a[*].[" + name + "][]", `["mine","mine"]`}, tc{user + "a[?" + name + " == 'mine'].b", `[1,2]`},
+			tc{user + "sort_by(a, &" + name + ")[*].b", `[1,2]`}, tc{user + "group_by(a, &" + name + ") | keys(@)", `["mine"]`}, tc{user + "max_by(a, &" + name + ").b", `1`}, tc{user + "a[*].c[?" + name + " == 'mine'][]", `[1,2,3]`})
 	}
 	for _, c := range cases {
 		o := search(c.expr, docs[0])
